@@ -29,11 +29,15 @@ class GenMixin:
                 for sub, ssrc in split_conj(src):
                     g = self.spec_eval(s, ssrc, fid, s.heap0, s.entry_frame, {"yielded": val})
                     self.emit(s, "yield:" + label + sub, g, "post", props)
+            # ghost code at the yield (a log of what has been handed out), see `ghost_yield=` of the contract
+            for gname, gsrc in c.extra.get("ghost_yield", []):
+                s.frames[self.root_fid][gname] = self.spec_value(s, gsrc, fid, s.heap0, s.entry_frame, {"yielded": val})
             saved_handler = s.yield_handler
             s.yield_handler = None
-            drv = SV("obj", self.alloc(s, "function"), h="Driver")
+            role = c.extra.get("driver_role", "Driver")
+            drv = SV("obj", self.alloc(s, "function"), h=role)
             out = []
-            for r in self.call_opaque(s, drv, "Driver", "", [], {}, None, None):
+            for r in self.call_opaque(s, drv, role, "", [], {}, None, None):
                 r.st.yield_handler = saved_handler
                 r.st.frames[fid]["_ctx_at_resume"] = SV("val", self.ctx_cell(r.st))
                 n = r.st.frames[fid]["_nyield"]
